@@ -168,8 +168,11 @@ def gen_cases(tier, rng):
     for text, c in tb.fix_families()[::(2 if quick else 1)]:
         cx = "-" if c is None else tb.ctx(c[1], c[0])
         cases.append((tb.case_txt([text], tb.opts(s=len(text) % 2), cx), "tb-fix-families"))
-    for text, c in tb.deep_family(tier):
+    for text, c in tb.deep_family(tier, big=True):
         cases.append((tb.case_txt([text], tb.opts(s=len(text) % 2)), "tb-deep"))
+        if len(text) > 60000:
+            cases.append((tb.case_txt([text], tb.opts(s=0, exact=1)), "tb-deep"))
+            cases.append((tb.case_txt([text], tb.opts(s=0, exact=1, tx=1)), "tb-deep"))
     # a sink whose attach_declarative_shadow succeeds (sh=1): the template element is then only on the stack, never appended
     for host in ("<div>", "<body><p>", "<table><tr><td>", "<svg><foreignObject>", "<select>", "<div><template>", "<b><i>"):
         for mode in ("open", "closed", "OPEN", "x"):
